@@ -157,10 +157,29 @@ def tlc(spec, cfg=None, env=None, workers=1, timeout=900, simulate=None, depth=N
     res["timeout"] = r.returncode == 124
     res["finished"] = "Model checking completed" in out or "Finished in" in out
     res["ok"] = r.returncode == 0 and not res["errors"]
-    res["prints"] = [l for l in out.splitlines() if l.startswith("<<") or l.startswith('"')]
+    res["prints"] = _collect_prints(out)
     if coverage:
         res["coverage"] = re.findall(r"^<(\w+) line \d+, col \d+ to line \d+, col \d+ of module (\w+)>: (\d+):(\d+)", out, re.M)
     shutil.rmtree(meta, ignore_errors=True)
+    return res
+
+
+def _collect_prints(out):
+    """values printed by PrintT, one string each (TLC breaks long values over several lines)"""
+    res, cur, bal = [], None, 0
+    for l in out.splitlines():
+        if cur is None:
+            if l.startswith("<<") or l.startswith('"'):
+                cur, bal = l, 0
+            else:
+                continue
+        else:
+            cur += " " + l.strip()
+        s = re.sub(r'"(?:[^"\\]|\\.)*"', '""', l)
+        bal += s.count("<<") - s.count(">>") + s.count("[") - s.count("]") + s.count("{") - s.count("}") + s.count("(") - s.count(")")
+        if bal <= 0:
+            res.append(re.sub(r'^<<\s+', '<<', cur))
+            cur = None
     return res
 
 
